@@ -301,6 +301,119 @@ def append_query(chk):
     chk.absorb(ex)
 
 
+def nonce_obligations(chk, which=('nonce-construction', 'nonce-display')):
+    """the two places where the nonce's value is made and rendered"""
+    def ev(name):
+        return lambda ex_, st, args, dty, canon: env_event(ex_, st, name, tuple(ex_.snapshot(st, a) for a in args), dty)
+    if 'nonce-construction' in which:
+        o = chk.ob('nonce-construction', 'Nonce::new: every one of the 32 bytes is its own draw from the random source (no byte is a constant, a copy of another byte or of anything else), and the source is consulted for nothing else')
+        ex = c15.real_builder_executor(chk)
+        D = Decide(chk, ex, o, cross=False)
+        draws = [0]
+
+        def fresh_byte(ex_, st):
+            draws[0] += 1
+            return ex_.sym_int('rnd!%d' % draws[0], 'u8')
+
+        def m_fill(ex_, st, args, dty, canon):
+            p = smodels.as_ptr(ex_, st, args[1], 'Rng::fill')
+            v = smodels.deref(ex_, st, p)
+            n = smodels.vec_len(ex_, st, v) if not (isinstance(v, Tree) and (v.ty or '').startswith('[u8;')) else len([k for k in v.f if isinstance(k, int)])
+            st.trace.append(Event('env', 'Rng::fill', (n,), 'ev%d' % len(st.trace)))
+            for i in range(n):
+                ex_.store(st, p.cell, [(k, None) for k in p.path] + [(i, 'u8')], fresh_byte(ex_, st))
+            return UNIT
+
+        def m_gen(ex_, st, args, dty, canon):
+            st.trace.append(Event('env', 'Rng::gen', (dty,), 'ev%d' % len(st.trace)))
+            m_ = re.match(r'^\[u8; (\d+)\]$', (dty or '').strip())
+            if m_:
+                return Tree(dict((i, fresh_byte(ex_, st)) for i in range(int(m_.group(1)))), None, dty)
+            if (dty or '').strip() == 'u8':
+                return fresh_byte(ex_, st)
+            raise Inconclusive('Rng::gen::<%s>' % dty)
+
+        def m_full_range(ex_, st, args, dty, canon):
+            if 'RangeFull' not in canon[4]:
+                raise Inconclusive('slicing by %s' % canon[4])
+            return args[0]
+        for rx, f_ in ((r'(^|::)thread_rng$', ev('thread_rng')), (r' as (rand::)?Rng>::fill(::<.*>)?$', m_fill), (r' as (rand::)?Rng>::gen(::<.*>)?$|^rand::random(::<.*>)?$|^random(::<.*>)?$', m_gen),
+                       (r'^<\[u8; \d+\] as IndexMut<.*>>::index_mut$|^<\[u8; \d+\] as Index<.*>>::index$', m_full_range)):
+            ex.model_patterns.insert(0, (re.compile(rx), f_))
+            ex.models.pop('rand::random', None)
+            ex.models.pop('random', None)
+        fn = find_method(ex, 'Nonce::new')
+        res = ex.run_fn(fn, [], State())
+        D.no_bad_status(res)
+        for st in res:
+            if st.status != 'done':
+                continue
+            arr = ex.child(st, st.result, 0, '[u8; 32]')
+            bytes_ = [ex.child(st, arr, i, 'u8') for i in range(32)]
+            names = [str(b.t) if isinstance(b, Sc) and z3.is_const(b.t) and b.t.decl().kind() == z3.Z3_OP_UNINTERPRETED else None for b in bytes_]
+            if any(n is None or not n.startswith('rnd!') for n in names):
+                D.failed = D.failed or ('violated', 'a nonce byte is not a random draw: %s' % [str(b.t) if isinstance(b, Sc) else repr(b) for b in bytes_][:6], None, st)
+            elif len(set(names)) != 32:
+                D.failed = D.failed or ('violated', 'the 32 nonce bytes come from only %d random draws' % len(set(names)), None, st)
+        f = D.done()
+        if f and f[0] == 'violated':
+            o.key = o.name
+        chk.absorb(ex)
+    if 'nonce-display' in which:
+        o = chk.ob('nonce-display', 'the text form of a nonce (used in cup2key and in the signed digest) is the lower-case hex of all 32 bytes, two digits per byte: decided on the MIR when Display writes exactly hex::encode(whole array), else by running the real Display on boundary nonces')
+        ex = c15.real_builder_executor(chk)
+        D = Decide(chk, ex, o, cross=False)
+        for rx, nm in ((r'^hex::encode(::<.*>)?$', 'hex::encode'), (r'Formatter::<.*>::write_fmt$|Formatter::write_fmt$', 'write_fmt'), (r'Formatter::<.*>::write_str$|Formatter::write_str$', 'write_str')):
+            ex.model_patterns.insert(0, (re.compile(rx), ev(nm)))
+        fn = find_method(ex, '<Nonce as Display>::fmt')
+        st0 = State()
+        nonce = Tree({}, 'nonce', 'cup_ecdsa::Nonce')
+        st0.cells['n'] = nonce
+        res = ex.run_fn(fn, [Ptr('n'), Ptr('f')], st0)
+        D.no_bad_status(res)
+        structural = True
+        why = ''
+        for st in res:
+            if st.status != 'done':
+                continue
+            evs = [e for e in st.trace if e.kind == 'env']
+            names = [e.name for e in evs]
+            if names != ['hex::encode', 'write_fmt']:
+                structural, why = False, 'Display does %s' % names[:6]
+                continue
+            if not ex.veq(smodels.deref_all(ex, st, sv(evs[0].args[0])), ex.child(st, nonce, 0, '[u8; 32]')):
+                structural, why = False, 'hex::encode is not applied to the whole nonce'
+                continue
+            a = sv(evs[1].args[1])
+            tmpl = decode_template(a.f[0]) if isinstance(a, Tree) and a.ty == 'fmt::Arguments' else None
+            fargs = a.f[1] if isinstance(a, Tree) else None
+            items = [sv(sv(fargs.f[i]).f[0]) for i in sorted(k for k in fargs.f if isinstance(k, int))] if isinstance(fargs, Tree) else []
+            it0 = smodels.deref_all(ex, st, items[0]) if len(items) == 1 else None
+            is_hex = it0 is not None and ((isinstance(it0, Sc) and str(it0.t) == evs[0].out) or getattr(it0, 'origin', None) == evs[0].out)
+            if tmpl != [None] or not is_hex:
+                structural, why = False, 'what is written is not exactly the hex string (template %s)' % (tmpl,)
+                continue
+            if not ex.veq(st.result, Tree({}, evs[1].out, None)) and getattr(st.result, 'origin', None) != evs[1].out:
+                structural, why = False, 'the write result is not returned'
+        # native side: boundary nonces through the real Display
+        binary = common.build_replay('dev')
+        samples = [[0] * 32, [0x0f] * 32, [0x10] * 32, [0xff] * 32, list(range(32)), [0x01, 0x10] + [0xab] * 30, [0x11, 0x00] + [0xab] * 30, [(i * 37 + 5) % 256 for i in range(32)]]
+        reps = common.run_replay_batch(binary, [{'kernel': 'nonce.display', 'bytes': b} for b in samples])
+        nat_bad = [(b, r.get('display')) for b, r in zip(samples, reps) if r.get('display') != bytes(b).hex()]
+        chk.validated += len(samples)
+        f = D.done()
+        if nat_bad:
+            o.status = 'violated'
+            o.key = o.name
+            o.detail = 'the real Display renders nonce %s as %r, expected %r%s' % (bytes(nat_bad[0][0]).hex()[:16] + '..', nat_bad[0][1], bytes(nat_bad[0][0]).hex(), ('; on the MIR: ' + why) if why else '')
+            o.cex = {'nonce_bytes': nat_bad[0][0], 'display': nat_bad[0][1]}
+            o.replayed = {'native': 'nonce.display kernel on the real code'}
+        elif not structural and o.status == 'holds':
+            o.status = 'inconclusive'
+            o.detail = 'Display is not the recognised hex::encode form (%s) and the boundary nonces render correctly natively: not decided' % why
+        chk.absorb(ex)
+
+
 def build_with_handler(chk):
     o = chk.ob('build-decorates-what-it-sends', 'RequestBuilder::build: metadata is Some exactly when a handler is given and is the handler\'s; the Intermediate handed to the handler starts at the configured service URL and is the very one converted into the HTTP request (its decorated URI is the request URI, its body is serialised for the wire, nothing is altered in between); a decoration error aborts the build')
     ex = c15.real_builder_executor(chk)
@@ -410,10 +523,20 @@ def build_with_handler(chk):
 
 def run(chk):
     decorate(chk)
+    import domaha
+    E = domaha.explore(chk, 4)
+    o_h = chk.ob('exchange-keeps-handler', 'on every path of the one function every exchange goes through (any build / transport / verification outcome, any status) the CUP handler the state machine was configured with is still configured afterwards: the next request (retry, event report, ping, next check) is decorated and verified like this one')
+    D_h = Decide(chk, E.ex, o_h, cross=False)
+    domaha.monitor_handler_kept(E, D_h)
+    f_h = D_h.done()
+    if f_h and f_h[0] == 'violated':
+        o_h.key = o_h.name
+    chk.absorb(E.ex)
+    nonce_obligations(chk)
     append_query(chk)
     build_with_handler(chk)
     callers.monitor_attempt_loop(chk, chk.tier)
-    chk.obligations = [o for o in chk.obligations if o.name in ('decorate-request', 'append-query-parameter', 'build-decorates-what-it-sends', 'session-and-request-ids')]
+    chk.obligations = [o for o in chk.obligations if o.name in ('decorate-request', 'exchange-keeps-handler', 'nonce-construction', 'nonce-display', 'append-query-parameter', 'build-decorates-what-it-sends', 'session-and-request-ids')]
     chk.assumptions += [
         'outside: http::Uri itself (into_parts / from_parts / PathAndQuery parsing and accessors are events: that they split and reassemble a URL faithfully is the http crate\'s contract), and the randomness of Nonce::new (an event returning a fresh value); a nonce is never stored or reused: it flows only into the cup2key value and the returned metadata',
         'every exchange goes through do_omaha_request_and_update_context -> RequestBuilder::build(handler) (C02 exploration), so update checks, retries, event reports and pings are all decorated by the code checked here',
@@ -425,8 +548,11 @@ if __name__ == '__main__':
     chk = Check('C03')
     try:
         run(chk)
-    except Inconclusive as e:
+    except Exception as e:          # nothing the engine cannot digest may look like a verdict: exit 2
+        import traceback
         o = chk.ob('engine', 'executor could not interpret the code')
         o.status = 'inconclusive'
-        o.detail = str(e)
+        o.detail = ('%s: %s' % (type(e).__name__, e)) if not isinstance(e, Inconclusive) else str(e)
+        if not isinstance(e, Inconclusive):
+            o.detail += ' | ' + ' <- '.join(l.strip() for l in traceback.format_exc().strip().split('\n')[-7:-1:2])
     sys.exit(chk.finish())
